@@ -68,13 +68,29 @@ pub fn history(b: &Board) -> &[Ply] {
     &b.history
 }
 
+/// One entry of the repetition record, whatever container holds it (a key with a count, or a bare key)
+pub trait RecordEntry {
+    fn key_count(&self) -> (u64, u16);
+}
+impl RecordEntry for (&ZKey, &u16) {
+    fn key_count(&self) -> (u64, u16) {
+        (key_u64(*self.0), *self.1)
+    }
+}
+impl RecordEntry for (&ZKey, &u32) {
+    fn key_count(&self) -> (u64, u16) {
+        (key_u64(*self.0), *self.1 as u16)
+    }
+}
+impl RecordEntry for &ZKey {
+    fn key_count(&self) -> (u64, u16) {
+        (key_u64(**self), 1)
+    }
+}
+
 /// (key, count) pairs of the repetition record, sorted by key
 pub fn position_history(b: &Board) -> Vec<(u64, u16)> {
-    let mut v: Vec<(u64, u16)> = b
-        .position_history
-        .iter()
-        .map(|(k, c)| (key_u64(*k), *c))
-        .collect();
+    let mut v: Vec<(u64, u16)> = b.position_history.iter().map(|e| e.key_count()).collect();
     v.sort_unstable();
     v
 }
